@@ -298,7 +298,7 @@ NAMES = st.sampled_from(['', '', 'N', 'M', 'N'])
 
 def make_machine(tier, hooks):
     class CircuitHistories(RuleBasedStateMachine):
-        STEP_COUNT = {'quick': 25, 'thorough': 50}
+        STEP_COUNT = {'quick': 25, 'thorough': 60}
 
         def __init__(self):
             super().__init__()
@@ -420,7 +420,7 @@ SPEC = {
              'evaluate_full_circuit with the reference run. Non-trivial: history with >=3 adopted mutations incl. one of '
              'right-connect / rename / replace_subcircuit / into_bench / remove_gate / remove_block; distinct by operation log.'),
     'assumptions': ['non-CirboError exceptions of a call are counted, not judged (the statement is conditional on normal return)'],
-    'subs': [Sub('histories', None, check_history, {'quick': 3200, 'thorough': 48000}, stateful=make_machine)],
+    'subs': [Sub('histories', None, check_history, {'quick': 3200, 'thorough': 192000}, stateful=make_machine)],
     'required_classes': {'histories': ['k:connect_right_like', 'k:connect_left_like', 'k:rename_gate', 'k:replace_subcircuit',
                                        'k:into_bench', 'k:remove_gate', 'k:remove_block', 'k:make_block', 'k:copy',
                                        'k:replace_inputs', 'had_rejected_call']},
